@@ -20,6 +20,8 @@ Section view_ind'.
   Hypothesis Hany : forall v, P v -> P (VAny v).
   Hypothesis Hkeyed : forall vs, Forall P vs -> P (VKeyed vs).
   Hypothesis Hinert : forall e, P (VInert e).
+  Hypothesis Hraw : forall n a ps, P (VRaw n a ps).
+  Hypothesis Hsusp : forall v, P v -> P (VSuspend v).
   Fixpoint view_ind' (v : view) : P v :=
     let all := fix all (l : list view) : Forall P l :=
       match l with [] => Forall_nil P | x :: r => Forall_cons x (view_ind' x) (all r) end in
@@ -37,6 +39,8 @@ Section view_ind'.
     | VAny v => Hany v (view_ind' v)
     | VKeyed vs => Hkeyed vs (all vs)
     | VInert e => Hinert e
+    | VRaw n a ps => Hraw n a ps
+    | VSuspend v => Hsusp v (view_ind' v)
     end.
 End view_ind'.
 
@@ -147,8 +151,9 @@ Lemma wf_keyed in_p vs : wf in_p (VKeyed vs) = wf_seq in_p vs.
 Proof. reflexivity. Qed.
 
 Lemma ser_elem n a ks :
+  raw_kind n = None ->
   ser (DElem n a ks) = open_tag n a ++ (if is_void n then [] else ser_forest ks ++ close_tag n).
-Proof. reflexivity. Qed.
+Proof. intro H. cbn [ser]. rewrite H. reflexivity. Qed.
 
 Lemma ser_forest_app a b : ser_forest (a ++ b) = ser_forest a ++ ser_forest b.
 Proof. induction a as [|x a IH]; [reflexivity|]. cbn [app ser_forest]. now rewrite IH, app_assoc. Qed.
@@ -184,6 +189,12 @@ Proof.
   destruct H as [[-> ->]|[[[->|[->|[->| ->]]] ->]|[[-> ->]|[[[->|[->| ->]] ->]|[-> ->]]]]]; reflexivity.
 Qed.
 
+Lemma kind_not_raw n k : kind_of n = Some k -> raw_kind n = None.
+Proof.
+  intro H. apply kind_of_cases in H.
+  destruct H as [[-> ->]|[[[->|[->|[->| ->]]] ->]|[[-> ->]|[[[->|[->| ->]] ->]|[-> ->]]]]]; reflexivity.
+Qed.
+
 (** * The printer writes the serialisation of [dom_of] *)
 Lemma to_html_dom_seq_step (P : view -> Prop) :
   True.
@@ -192,13 +203,14 @@ Proof. exact I. Qed.
 Lemma to_html_dom v : forall in_p pos, wf in_p v = true ->
   to_html v pos = (ser_forest (fst (dom_of v pos)), snd (dom_of v pos)).
 Proof.
-  induction v as [s| |n a ks IH|n a|vs IH|v IH| |v IH|v IH|vs IH|v IH|vs IH|e] using view_ind';
+  induction v as [s| |n a ks IH|n a|vs IH|v IH| |v IH|v IH|vs IH|v IH|vs IH|e|rn ra rps|v IH] using view_ind';
     intros in_p pos Hwf.
   - cbn. destruct (pos_eqb pos NextChildAfterText); destruct s; cbn; now rewrite ?app_nil_r.
   - reflexivity.
-  - rewrite to_html_elem, dom_of_elem. cbn [fst snd ser_forest]. rewrite app_nil_r, ser_elem.
+  - rewrite to_html_elem, dom_of_elem. cbn [fst snd ser_forest]. rewrite app_nil_r.
     rewrite wf_elem in Hwf. apply andb_true_iff in Hwf as [Hwf Hks]. apply andb_true_iff in Hwf as [He Ha].
     unfold elem_ok in He. destruct (kind_of n) as [k|] eqn:Ek; [|discriminate].
+    rewrite (ser_elem _ _ _ (kind_not_raw _ _ Ek)).
     apply andb_true_iff in He as [Hv _]. apply eqb_prop in Hv.
     rewrite (kind_void_is_void _ _ Ek), Hv. do 3 f_equal.
     (* children *)
@@ -209,9 +221,10 @@ Proof.
     specialize (IHks p1 b H2).
     destruct (html_seq ks p1) as [b2 p2]. destruct (dom_seq ks p1) as [d2 p2']. cbn [fst snd] in *.
     now rewrite ser_forest_app, IHks.
-  - cbn [to_html dom_of fst snd ser_forest]. rewrite app_nil_r, ser_elem.
+  - cbn [to_html dom_of fst snd ser_forest]. rewrite app_nil_r.
     cbn [wf] in Hwf. apply andb_true_iff in Hwf as [He Ha].
     unfold elem_ok in He. destruct (kind_of n) as [k|] eqn:Ek; [|discriminate].
+    rewrite (ser_elem _ _ _ (kind_not_raw _ _ Ek)).
     apply andb_true_iff in He as [Hv _]. apply eqb_prop in Hv.
     rewrite (kind_void_is_void _ _ Ek), Hv. now rewrite app_nil_r.
   - rewrite to_html_tuple, dom_of_tuple. rewrite wf_tuple in Hwf. apply andb_true_iff in Hwf as [_ Hks].
@@ -242,6 +255,8 @@ Proof.
     destruct (html_seq ks p1) as [b2 p2]. destruct (dom_seq ks p1) as [d2 p2']. cbn [fst snd] in *.
     now rewrite ser_forest_app, IHks.
   - cbn. now rewrite app_nil_r.
+  - discriminate.
+  - apply (IH in_p pos Hwf).
 Qed.
 
 (** * The expected DOM is one the parser keeps unchanged *)
@@ -293,7 +308,7 @@ Proof.
       destruct (IHvs in_p p1 (ends_text d1 prev) H2 Hb) as [Hc Hd].
       destruct (dom_seq vs p1) as [d2 p2]. cbn [fst snd] in *.
       rewrite forest_ok_app, ends_text_app, Ha, Hc. auto. }
-  induction v as [s| |n a ks IH|n a|vs IH|v IH| |v IH|v IH|vs IH|v IH|vs IH|e] using view_ind';
+  induction v as [s| |n a ks IH|n a|vs IH|v IH| |v IH|v IH|vs IH|v IH|vs IH|e|rn ra rps|v IH] using view_ind';
     intros in_p pos prev Hwf Hprev.
   - cbn [wf] in Hwf. cbn [dom_of fst snd].
     destruct (pos_eqb pos NextChildAfterText) eqn:Ep.
@@ -331,6 +346,8 @@ Proof.
   - cbn [wf] in Hwf. destruct e as [s|s|n a ks]; try discriminate.
     cbn [dom_of fst snd forest_ok ends_text is_text_node]. rewrite andb_false_r, Hwf.
     split; [reflexivity|discriminate].
+  - discriminate.
+  - apply (IH in_p pos prev Hwf Hprev).
 Qed.
 
 (** * Tokenizer: running over a serialised node yields its tokens *)
@@ -496,10 +513,10 @@ Proof.
 Qed.
 
 Lemma run_open_tag n a out :
-  name_ok n = true -> attrs_ok a = true ->
+  name_ok n = true -> raw_kind n = None -> attrs_ok a = true ->
   run_tok (MData, out) (open_tag n a) = (MData, TStart n a :: out).
 Proof.
-  intros Hn Ha. unfold attrs_ok in Ha. apply andb_true_iff in Ha as [Hok Hnd].
+  intros Hn Hraw Ha. unfold attrs_ok in Ha. apply andb_true_iff in Ha as [Hok Hnd].
   destruct n as [|c0 n]; [discriminate|].
   unfold name_ok in Hn. apply andb_true_iff in Hn as [Hc0 Hall].
   cbn [forallb] in Hall. apply andb_true_iff in Hall as [Hc0c Hrest].
@@ -518,7 +535,7 @@ Proof.
   - destruct a as [|[k v] a]; cbn [attrs_html flat_map attr_html app]; rewrite !run_cons;
       cbn [step is_ws N.eqb Pos.eqb orb]; now rewrite E.
   - rewrite run_attrs; [| exact Hok | exact Hnd | intros x y []].
-    unfold emit_tag. cbn [with_attrs t_attrs t_end t_name]. now rewrite app_nil_r, rev_involutive.
+    unfold emit_tag. cbn [with_attrs t_attrs t_end t_name]. now rewrite Hraw, app_nil_r, rev_involutive.
 Qed.
 
 Lemma run_close_tag n out :
@@ -555,9 +572,9 @@ Proof.
   - reflexivity.
   - rewrite node_ok_elem in Hok. destruct (kind_of n) as [k|] eqn:Ek; [|discriminate].
     apply andb_true_iff in Hok as [Hok Hks]. apply andb_true_iff in Hok as [_ Ha].
-    rewrite ser_elem, toks_elem, (kind_void_is_void _ _ Ek).
+    rewrite (ser_elem _ _ _ (kind_not_raw _ _ Ek)), toks_elem, (kind_void_is_void _ _ Ek).
     pose proof (kind_name_ok _ _ Ek) as Hn.
-    rewrite run_tok_app, (run_open_tag n a out Hn Ha).
+    rewrite run_tok_app, (run_open_tag n a out Hn (kind_not_raw _ _ Ek) Ha).
     destruct (kind_void k).
     + cbn. reflexivity.
     + rewrite run_tok_app.
@@ -664,7 +681,7 @@ Proof.
     apply andb_true_iff in Hok as [Hok Hks]. apply andb_true_iff in Hok as [_ Ha].
     unfold attrs_ok in Ha. apply andb_true_iff in Ha as [Ha _].
     pose proof (name_ok_no_cr _ (kind_name_ok _ _ Ek)) as Hn.
-    rewrite ser_elem, (kind_void_is_void _ _ Ek). unfold open_tag, close_tag.
+    rewrite (ser_elem _ _ _ (kind_not_raw _ _ Ek)), (kind_void_is_void _ _ Ek). unfold open_tag, close_tag.
     rewrite !no_cr_app, Hn, (no_cr_attrs _ Ha). cbn [no_cr forallb N.eqb Pos.eqb negb andb].
     destruct (kind_void k); [reflexivity|].
     rewrite !no_cr_app, Hn. cbn [no_cr forallb N.eqb Pos.eqb negb andb]. rewrite andb_true_r.
@@ -714,18 +731,31 @@ Proof.
   - cbn. now rewrite app_nil_r.
   - cbn [text_ok forallb] in Hs. apply andb_true_iff in Hs as [Hc Hs].
     unfold char_ok in Hc. apply andb_true_iff in Hc as [H0 _]. apply negb_true_iff in H0.
-    cbn [map fold_left bstep]. rewrite H0. unfold append_char. cbn [f_kids f_name f_attrs].
+    cbn [map fold_left bstep]. rewrite H0. unfold first_in_textarea. cbn [f_kids f_name].
+    rewrite !andb_false_r. unfold append_char. cbn [f_kids f_name f_attrs].
     rewrite (IH (t ++ [c]) n a ks st Hs). now rewrite <- app_assoc.
 Qed.
 
+(** the current node is not a textarea (whose first newline the tree builder drops) *)
+Definition not_ta (st : list frame) : Prop :=
+  match st with fr :: _ => bytes_eqb (f_name fr) s_textarea = false | [] => True end.
+Lemma not_ta_push f st : not_ta st -> not_ta (push_kids f st).
+Proof. destruct st; auto. Qed.
+Lemma kind_not_textarea n k : kind_of n = Some k -> bytes_eqb n s_textarea = false.
+Proof.
+  intro H. apply kind_not_raw in H. unfold raw_kind in H.
+  destruct (bytes_eqb n s_textarea); [discriminate|reflexivity].
+Qed.
+
 Lemma build_text s st :
-  text_ok s = true -> s <> [] -> st <> [] -> top_text st = false ->
+  text_ok s = true -> s <> [] -> st <> [] -> top_text st = false -> not_ta st ->
   fold_left bstep (map TChar s) (Some st) = Some (push_kids [DText s] st).
 Proof.
-  intros Hs Hne Hst Htop. destruct st as [|fr st]; [congruence|]. destruct s as [|c s]; [congruence|].
+  intros Hs Hne Hst Htop Hta. destruct st as [|fr st]; [congruence|]. destruct s as [|c s]; [congruence|].
   cbn [text_ok forallb] in Hs. apply andb_true_iff in Hs as [Hc Hs].
   unfold char_ok in Hc. apply andb_true_iff in Hc as [H0 _]. apply negb_true_iff in H0.
-  cbn [map fold_left bstep]. rewrite H0.
+  cbn [map fold_left bstep]. rewrite H0. unfold first_in_textarea. cbn [not_ta] in Hta. rewrite Hta.
+  cbn [andb]. rewrite andb_false_r.
   assert (E : append_char c (fr :: st) =
               {| f_name := f_name fr; f_attrs := f_attrs fr; f_kids := DText [c] :: f_kids fr |} :: st).
   { unfold append_char. cbn [top_text] in Htop. destruct (f_kids fr) as [|[t|t|n a ks] r]; try reflexivity; discriminate. }
@@ -744,10 +774,10 @@ Proof. destruct st; reflexivity. Qed.
 
 Lemma build_node d : forall in_p st,
   node_ok in_p d = true -> st <> [] -> has_open s_p st = in_p ->
-  (is_text_node d = true -> top_text st = false) ->
+  (is_text_node d = true -> top_text st = false) -> not_ta st ->
   fold_left bstep (toks d) (Some st) = Some (push_kids [d] st).
 Proof.
-  induction d as [s|s|n a ks IH] using dom_ind'; intros in_p st Hok Hst Hp Htop.
+  induction d as [s|s|n a ks IH] using dom_ind'; intros in_p st Hok Hst Hp Htop Hta.
   - cbn [node_ok] in Hok. apply andb_true_iff in Hok as [Hs Hne].
     apply build_text; auto. destruct s; [discriminate|congruence].
   - cbn [node_ok] in Hok. destruct s; [|discriminate]. cbn. now rewrite add_kid_push.
@@ -763,18 +793,20 @@ Proof.
     + rewrite fold_left_app.
       set (st1 := {| f_name := n; f_attrs := a; f_kids := [] |} :: st).
       assert (Hf : forall b pv s0, forest_ok b ks pv = true -> s0 <> [] -> has_open s_p s0 = b ->
-                     top_text s0 = pv ->
+                     top_text s0 = pv -> not_ta s0 ->
                      fold_left bstep (toks_forest ks) (Some s0) = Some (push_kids ks s0)).
-      { clear Hks Htop. induction IH as [|x ks Hx _ IHks]; intros b pv s0 Hf Hs0 Hb Hpv.
+      { clear Hks Htop. induction IH as [|x ks Hx _ IHks]; intros b pv s0 Hf Hs0 Hb Hpv Hta0.
         - destruct s0 as [|fr s0]; [congruence|]. cbn. destruct fr; reflexivity.
         - cbn [forest_ok] in Hf. apply andb_true_iff in Hf as [Hf Hf2]. apply andb_true_iff in Hf as [Hadj Hf1].
-          cbn [toks_forest]. rewrite fold_left_app, (Hx b s0 Hf1 Hs0 Hb).
+          cbn [toks_forest]. rewrite fold_left_app, (Hx b s0 Hf1 Hs0 Hb); [| |exact Hta0].
           + rewrite (push_kids_cons x ks). apply (IHks b (is_text_node x)); auto.
             * now apply push_kids_nonempty.
             * now rewrite has_open_push.
             * now apply top_text_push.
+            * now apply not_ta_push.
           + intro Hx'. rewrite Hx', andb_true_r in Hadj. apply negb_true_iff in Hadj. congruence. }
-      rewrite (Hf (in_p || bytes_eqb n s_p) false st1 Hks); [| discriminate | | reflexivity].
+      rewrite (Hf (in_p || bytes_eqb n s_p) false st1 Hks); [| discriminate | | reflexivity |].
+      3:{ unfold st1. cbn [not_ta f_name]. apply (kind_not_textarea _ _ Ek). }
       2:{ unfold st1. cbn [has_open existsb f_name]. fold (has_open s_p st).
           rewrite Hp, orb_comm. f_equal. apply bytes_eqb_sym. }
       cbn [fold_left bstep]. rewrite Ek. unfold st1. cbn [push_kids f_name f_attrs f_kids].
@@ -800,17 +832,18 @@ Proof.
 Qed.
 
 Lemma build_forest f : forall in_p pv st,
-  forest_ok in_p f pv = true -> st <> [] -> has_open s_p st = in_p -> top_text st = pv ->
+  forest_ok in_p f pv = true -> st <> [] -> has_open s_p st = in_p -> top_text st = pv -> not_ta st ->
   fold_left bstep (toks_forest f) (Some st) = Some (push_kids f st).
 Proof.
-  induction f as [|x f IH]; intros in_p pv st Hf Hst Hp Hpv.
+  induction f as [|x f IH]; intros in_p pv st Hf Hst Hp Hpv Hta.
   - destruct st as [|fr st]; [congruence|]. cbn. destruct fr; reflexivity.
   - cbn [forest_ok] in Hf. apply andb_true_iff in Hf as [Hf Hf2]. apply andb_true_iff in Hf as [Hadj Hf1].
-    cbn [toks_forest]. rewrite fold_left_app, (build_node x in_p st Hf1 Hst Hp).
+    cbn [toks_forest]. rewrite fold_left_app, (build_node x in_p st Hf1 Hst Hp); [| |exact Hta].
     + rewrite (push_kids_cons x f). apply (IH in_p (is_text_node x)); auto.
       * now apply push_kids_nonempty.
       * now rewrite has_open_push.
       * now apply top_text_push.
+      * now apply not_ta_push.
     + intro Hx'. rewrite Hx', andb_true_r in Hadj. apply negb_true_iff in Hadj. congruence.
 Qed.
 
@@ -856,6 +889,8 @@ Fixpoint st_of (v : view) (pos : Position) (par : path) (idx : nat) {struct v} :
   | VVec vs => SVec (seq vs pos par idx) ((idx + length (fst (dom_seq vs pos)))%nat :: par)
   | VKeyed vs => SKeyed par (seq vs pos par idx) ((idx + length (fst (dom_seq vs pos)))%nat :: par)
   | VInert e => SInert (idx :: par)
+  | VRaw n a _ => SElem (idx :: par) a None
+  | VSuspend v => SSusp (st_of v pos par idx)
   end.
 
 Fixpoint st_seq (l : list view) (pos : Position) (par : path) (idx : nat) : list stree :=
@@ -893,7 +928,7 @@ Fixpoint resets (s : stree) : list op :=
   | SElem _ _ (Some l) => seq l
   | SElem _ _ None => []
   | SSeq l | SVec l _ | SKeyed _ l _ => seq l
-  | SLeftS s | SRightS s | SAny s => resets s
+  | SLeftS s | SRightS s | SAny s | SSusp s => resets s
   end.
 Fixpoint resets_seq (l : list stree) : list op :=
   match l with [] => [] | s :: l => resets s ++ resets_seq l end.
@@ -1126,7 +1161,7 @@ Proof. reflexivity. Qed.
 
 Lemma hyd_all root v : hyd_spec root v.
 Proof.
-  induction v as [s| |n a ks IH|n a|vs IH|v IH| |v IH|v IH|vs IH|v IH|vs IH|e] using view_ind';
+  induction v as [s| |n a ks IH|n a|vs IH|v IH| |v IH|v IH|vs IH|v IH|vs IH|e|rn ra rps|v IH] using view_ind';
     intros par n0 a0 pre post in_p pos h Hwf Hn Hpos Hc; subst pos.
   - (* text *)
     cbn [dom_of fst snd] in *. cbn [hydrate st_of].
@@ -1242,6 +1277,11 @@ Proof.
     rewrite (goto_element_ok _ _ _ _ _ _ _ _ Hn Hc eq_refl).
     eexists. split; [reflexivity|]. cbn [h_pos h_cur h_ops]. split; [reflexivity|]. split; [|reflexivity].
     apply cursor_ok_after'; [now left|discriminate|cbn [length app]; lia].
+  - (* raw-text element: outside wf *)
+    discriminate.
+  - (* Suspend (future resolved) *)
+    destruct (IH par n0 a0 pre post in_p (h_pos h) h Hwf Hn eq_refl Hc) as (h1 & Hh1 & Hp1 & Hc1 & Ho1).
+    cbn [hydrate st_of dom_of]. rewrite Hh1. exists h1. auto.
 Qed.
 
 (** ** hydrate_total *)
@@ -1364,9 +1404,11 @@ Fixpoint dom_hyd (v : view) (pos : Position) {struct v} : list dom * Position :=
       ([DElem n a (match ks with [] => [] | _ => fst (seq ks FirstChild) end)], NextChild)
   | VVoid n a => ([DElem n a []], NextChild)
   | VTuple vs => seq vs pos
-  | VSome v | VLeft v | VRight v | VAny v => dom_hyd v pos
+  | VSome v | VLeft v | VRight v | VAny v | VSuspend v => dom_hyd v pos
   | VVec vs | VKeyed vs => let '(b, _) := seq vs pos in (b ++ [sep], NextChild)
   | VInert e => ([e], NextChild)
+  | VRaw n a parts =>
+      ([DElem n a (match raw_content parts with [] => [] | c => [DText c] end)], NextChild)
   end.
 Fixpoint hyd_seq (l : list view) (pos : Position) : list dom * Position :=
   match l with
@@ -1404,34 +1446,49 @@ Proof. reflexivity. Qed.
 Lemma dom_csr_keyed vs : dom_csr (VKeyed vs) = csr_seq vs ++ [sep].
 Proof. reflexivity. Qed.
 
-(** marker comments aside, the hydrated DOM is the client-built DOM — for every view of the grammar
-    (no side condition) and every starting position *)
-Theorem hydrated_as_built v : forall pos,
+(** marker comments aside, the hydrated DOM is the client-built DOM — for every view of the proved
+    grammar and every starting position (raw-text elements are excluded by [wf]: finding F-C05-c) *)
+Theorem hydrated_as_built v : forall in_p pos, wf in_p v = true ->
   strip_forest (fst (dom_hyd v pos)) = strip_forest (dom_csr v).
 Proof.
-  assert (Hseq : forall vs, Forall (fun v => forall pos,
+  assert (Hseq : forall vs, Forall (fun v => forall in_p pos, wf in_p v = true ->
                    strip_forest (fst (dom_hyd v pos)) = strip_forest (dom_csr v)) vs ->
-                 forall pos, strip_forest (fst (hyd_seq vs pos)) = strip_forest (csr_seq vs)).
-  { intros vs IH. induction IH as [|x vs Hx _ IHvs]; intro pos; [reflexivity|].
-    cbn [hyd_seq csr_seq]. specialize (Hx pos). destruct (dom_hyd x pos) as [b1 p1].
-    specialize (IHvs p1). destruct (hyd_seq vs p1) as [b2 p2]. cbn [fst] in *.
+                 forall in_p pos, wf_seq in_p vs = true ->
+                   strip_forest (fst (hyd_seq vs pos)) = strip_forest (csr_seq vs)).
+  { intros vs IH. induction IH as [|x vs Hx _ IHvs]; intros in_p pos Hwf; [reflexivity|].
+    cbn [wf_seq] in Hwf. apply andb_true_iff in Hwf as [H1 H2].
+    cbn [hyd_seq csr_seq]. specialize (Hx in_p pos H1). destruct (dom_hyd x pos) as [b1 p1].
+    specialize (IHvs in_p p1 H2). destruct (hyd_seq vs p1) as [b2 p2]. cbn [fst] in *.
     now rewrite !strip_forest_app, Hx, IHvs. }
-  induction v as [s| |n a ks IH|n a|vs IH|v IH| |v IH|v IH|vs IH|v IH|vs IH|e] using view_ind'; intro pos.
+  induction v as [s| |n a ks IH|n a|vs IH|v IH| |v IH|v IH|vs IH|v IH|vs IH|e|rn ra rps|v IH] using view_ind';
+    intros in_p pos Hwf.
   - cbn [dom_hyd dom_csr fst]. destruct (pos_eqb pos NextChildAfterText); reflexivity.
   - reflexivity.
   - rewrite dom_hyd_elem, dom_csr_elem. cbn [fst strip_forest]. rewrite !strip_elem.
-    now rewrite (Hseq ks IH FirstChild).
+    rewrite wf_elem in Hwf. apply andb_true_iff in Hwf as [_ Hks].
+    now rewrite (Hseq ks IH _ FirstChild Hks).
   - reflexivity.
-  - rewrite dom_hyd_tuple, dom_csr_tuple. apply (Hseq vs IH).
-  - apply IH.
+  - rewrite dom_hyd_tuple, dom_csr_tuple. rewrite wf_tuple in Hwf. apply andb_true_iff in Hwf as [_ Hks].
+    apply (Hseq vs IH in_p pos Hks).
+  - apply (IH in_p pos Hwf).
   - reflexivity.
-  - apply IH.
-  - apply IH.
-  - rewrite dom_hyd_vec, dom_csr_vec. cbn [fst]. now rewrite !strip_forest_app, (Hseq vs IH pos).
-  - apply IH.
-  - rewrite dom_hyd_keyed, dom_csr_keyed. cbn [fst]. now rewrite !strip_forest_app, (Hseq vs IH pos).
+  - apply (IH in_p pos Hwf).
+  - apply (IH in_p pos Hwf).
+  - rewrite dom_hyd_vec, dom_csr_vec. cbn [fst]. rewrite wf_vec in Hwf.
+    now rewrite !strip_forest_app, (Hseq vs IH in_p pos Hwf).
+  - apply (IH in_p pos Hwf).
+  - rewrite dom_hyd_keyed, dom_csr_keyed. cbn [fst]. rewrite wf_keyed in Hwf.
+    now rewrite !strip_forest_app, (Hseq vs IH in_p pos Hwf).
   - reflexivity.
+  - discriminate.
+  - apply (IH in_p pos Hwf).
 Qed.
+
+(** a raw-text element shows why: its hydrated content is one merged text node (or none), the
+    client-built one has a node per child *)
+Example hydrated_as_built_refuted_for_raw :
+  exists v, strip_forest (fst (dom_hyd v FirstChild)) <> strip_forest (dom_csr v).
+Proof. exists (VRaw s_textarea [] [Some [97%N]; Some [98%N]]). vm_compute. discriminate. Qed.
 
 (** [dom_hyd] is the parsed DOM except for the content of placeholder text nodes *)
 Fixpoint skeleton_forest (l : list dom) : list dom :=
@@ -1458,7 +1515,7 @@ Proof.
     destruct (IHvs p1) as [A2 B2].
     destruct (hyd_seq vs p1) as [b2 p2]. destruct (dom_seq vs p1) as [c2 q2]. cbn [fst snd] in *.
     now rewrite !skeleton_forest_app, A, A2. }
-  induction v as [s| |n a ks IH|n a|vs IH|v IH| |v IH|v IH|vs IH|v IH|vs IH|e] using view_ind'; intro pos.
+  induction v as [s| |n a ks IH|n a|vs IH|v IH| |v IH|v IH|vs IH|v IH|vs IH|e|rn ra rps|v IH] using view_ind'; intro pos.
   - cbn [dom_hyd dom_of fst snd]. destruct (pos_eqb pos NextChildAfterText); split; reflexivity.
   - split; reflexivity.
   - rewrite dom_hyd_elem, dom_of_elem. cbn [fst snd skeleton_forest]. rewrite !skeleton_elem.
@@ -1475,6 +1532,8 @@ Proof.
   - rewrite dom_hyd_keyed, dom_of_keyed. cbn [fst snd]. destruct (Hseq vs IH pos) as [A _].
     now rewrite !skeleton_forest_app, A.
   - split; reflexivity.
+  - split; reflexivity.
+  - apply IH.
 Qed.
 
 (** ** the bound nodes are listed in document order *)
@@ -1572,7 +1631,7 @@ Proof. cbn. destruct (pos_eqb pos NextChildAfterText); cbn; lia. Qed.
 
 Lemma order_all v : order_spec v.
 Proof.
-  induction v as [s| |n a ks IH|n a|vs IH|v IH| |v IH|v IH|vs IH|v IH|vs IH|e] using view_ind';
+  induction v as [s| |n a ks IH|n a|vs IH|v IH| |v IH|v IH|vs IH|v IH|vs IH|e|rn ra rps|v IH] using view_ind';
     intros pos par idx; cbv zeta.
   - cbn [st_of bound dom_of fst]. split.
     + constructor; [|constructor]. destruct (pos_eqb pos NextChildAfterText); cbn [app length].
@@ -1613,6 +1672,8 @@ Proof.
       intros a b Ha [<-|[]]. rewrite Forall_forall in A.
       eapply doc_lt_under; [apply (A a Ha)|apply (under_self par (idx + length (fst (dom_seq vs pos))) (idx + length (fst (dom_seq vs pos))) (S (idx + length (fst (dom_seq vs pos))))); lia|lia].
   - cbn. split; [constructor; [apply under_self; lia|constructor]|constructor; constructor].
+  - cbn. split; [constructor; [apply under_self; lia|constructor]|constructor; constructor].
+  - apply IH.
 Qed.
 
 (** the nodes hydration binds are pairwise distinct nodes below the root, listed in document order *)
